@@ -11,6 +11,7 @@ import EasyNet.Lemmas.RU
 import EasyNet.Lemmas.RUSpec
 import EasyNet.Lemmas.ConsumerSim
 import EasyNet.Lemmas.BRUSpec
+import EasyNet.Lemmas.Fixed
 namespace EasyNet
 
 theorem RU.refines (sep : Bytes) (limit : Nat) (ke : Bool) (hsep : sep ≠ []) :
@@ -112,5 +113,56 @@ theorem C01_sep_buffered_room (sep : Bytes) (cap : Nat) (ke : Bool) (hsep : sep 
           simp; omega
 
 example : (∀ p ∈ ([[97, 98], [99]] : List Bytes), ValidPayloadB [13, 10] 8 p) := by decide +kernel
+
+/-- **C01, fixed-size serializers (struct, named-tuple struct, FixedSizePacketSerializer), copying consumer.**
+    Every chunking of a stream of `n`-byte packets is delivered as exactly those packets; nothing is left over. -/
+theorem C01_fixed_copy_roundtrip (n : Nat) (hn : 0 < n) (ps : List Bytes) (hvalid : ∀ p ∈ ps, p.length = n)
+    (chunks : List Bytes) (hcut : chunks.flatten = ps.flatten) :
+    (Consumer.run RE.init (RE.feed n) Consumer.new chunks).2 = ps.map Item.frame ∧
+    Consumer.held (·.buf) (Consumer.run RE.init (RE.feed n) Consumer.new chunks).1 = [] := by
+  have R := RE.refines n
+  have L := RE.spec_laws n hn
+  have hsim := Consumer.run_ref R chunks Consumer.new [] (Or.inl ⟨rfl, rfl⟩)
+  have hdec := RE.decode_packets n hn ps hvalid
+  have hind := refRun_chunk_independent L chunks [] (Or.inl rfl)
+    (by
+      simp only [List.nil_append, hcut, hdec]
+      intro it hit
+      simp only [List.mem_map] at hit
+      obtain ⟨p, _, rfl⟩ := hit
+      trivial)
+  simp only [List.nil_append, hcut, hdec] at hind
+  rw [hind] at hsim
+  refine ⟨hsim.1, ?_⟩
+  rcases hsim.2 with ⟨hfr, hbuf⟩ | ⟨s, hfr, hbuf, hinv, _⟩
+  · simp [Consumer.held, hfr, hbuf]
+  · simp only [Consumer.held, hfr]; exact hinv
+
+/-- **C01, fixed-size serializers, buffer-filling consumer** (capacity `cap = max n hint`), any fitting fills. -/
+theorem C01_fixed_buffered_roundtrip (n cap : Nat) (hn : 0 < n) (hcap : 0 < cap)
+    (ps : List Bytes) (hvalid : ∀ p ∈ ps, p.length = n)
+    (fills : List Bytes) (hcut : fills.flatten = ps.flatten)
+    (r : BufConsumer BFXState × List Item)
+    (hrun : BufConsumer.runFills BFX.init 0 cap (BFX.feed n) BufConsumer.new fills = some r) :
+    r.2 = ps.map Item.frame ∧ BufConsumer.Rel (·.nread) (RE.spec n) BFX.Inv cap r.1 [] := by
+  have R := BFX.refines n cap hn
+  have L := RE.spec_laws n hn
+  have hnew : BufConsumer.Rel (·.nread) (RE.spec n) BFX.Inv cap (BufConsumer.new : BufConsumer BFXState) [] :=
+    ⟨rfl, Or.inl ⟨rfl, rfl, rfl, Or.inl rfl⟩⟩
+  have hsim := BufConsumer.runFills_ref cap R hcap fills BufConsumer.new [] hnew r hrun
+  have hdec := RE.decode_packets n hn ps hvalid
+  have hind := refRun_chunk_independent L fills [] (Or.inl rfl)
+    (by
+      simp only [List.nil_append, hcut, hdec]
+      intro it hit
+      simp only [List.mem_map] at hit
+      obtain ⟨p, _, rfl⟩ := hit
+      trivial)
+  simp only [List.nil_append, hcut, hdec] at hind
+  rw [hind] at hsim
+  exact hsim
+
+example : (∀ p ∈ ([[1, 2, 3], [4, 5, 6]] : List Bytes), p.length = 3) ∧
+    ([[1], [2, 3, 4, 5], [6]] : List Bytes).flatten = ([[1, 2, 3], [4, 5, 6]] : List Bytes).flatten := by decide
 
 end EasyNet
